@@ -240,6 +240,10 @@ def jobs(tier, seed):
                   {"shapes": [F([S(1), O(1, [(2, [])])]), F([O(1, [(1, [])]), S(1)])],
                    "opts": {"stop": "sym", "out_dom": {"*": [0, 2]}}},
                   reach=REACH, min_paths=10, cost=4000, validate=100))
+    js.append(Job("run.same-names", "props.c14:h_summary_run",
+                  {"shapes": [F([S(1, name="Login"), R([S(1, name="Login")])]), F([S(1, name="Login"), O(1, [(1, [])], name="Login")])],
+                   "opts": {"out_dom": {"*": [0, 2]}, "undef": False}},
+                  reach=REACH, min_paths=10, cost=4000, validate=60))
     js.append(Job("run.hookfault", "props.c14:h_summary_run",
                   {"shapes": [F([S(1, tags=["t1"]), R([O(1, [(2, [])])], tags=["t2"])], tags=["t0"])],
                    "opts": {"hooks": True, "fault": True, "stop": "sym", "out_dom": {"*": [0, 1]}}},
